@@ -74,10 +74,12 @@ def run(ctx, rep):
         for (vb, vt) in vcalls:
             kind, edges = ok_cut(NS, vb)
             # validator applied to a name() of the same node, and the sink unreachable unless it returned Ok/true
+            # decided on the expression tree of the validator's argument (a slice through `self` would contain every call
+            # of the function): it must be built from Node::name(), the unescaped name that is joined - not from the
+            # raw stored field
             vsl = set()
             for a in vt["args"]:
-                if op_place(a):
-                    vsl |= flow.backward_slice(NS, op_place(a))["calls"]
+                vsl |= flow.expr_mentions(flow.expr_of(NS, a, vb))[1]
             if not any(NAME.search(c) for c in vsl):
                 continue
             if kind == "?":
